@@ -538,6 +538,7 @@ class CRSDReader1(CRSDReader):
         if not isinstance(index, str):
             raise TypeError('Got unexpected type {} for identifier'.format(type(index)))
 
+        self._validate_closed()
         the_memmap = self._support_array_memmap[index]
 
         if len(ranges) == 0:
@@ -557,6 +558,7 @@ class CRSDReader1(CRSDReader):
 
     def read_pvp_variable(self, variable, index, the_range=None):
         index_key = self._validate_index_key(index)
+        self._validate_closed()
         the_memmap = self._pvp_memmap[index_key]
         the_slice = verify_slice(the_range, the_memmap.shape[0])
         if variable in the_memmap.dtype.fields:
@@ -566,6 +568,7 @@ class CRSDReader1(CRSDReader):
 
     def read_pvp_array(self, index, the_range=None):
         index_key = self._validate_index_key(index)
+        self._validate_closed()
         the_memmap = self._pvp_memmap[index_key]
         the_slice = verify_slice(the_range, the_memmap.shape[0])
         return numpy.copy(the_memmap[the_slice])
